@@ -7,7 +7,7 @@
    actions and peer frames. *)
 From Coq Require Import ZArith Bool Lia List.
 From ReqV Require Import Lib.GoInt Gen.H2Flow Model.H2Flow Model.H2Monitor Model.H2Conn Model.H2TraceSpec
-                         Proofs.H2FlowProofs Proofs.H2ConnProofs Proofs.H2CreditProofs Proofs.H2ConnTheorems.
+                         Proofs.H2FlowProofs Proofs.H2ConnProofs Proofs.H2CreditProofs Proofs.H2WireOrder Proofs.H2ConnTheorems.
 Import ListNotations.
 Open Scope Z_scope.
 
@@ -189,6 +189,42 @@ Theorem C06_no_permanent_stall : forall prio_len prio_last stream_in conn_flow,
       stream_in - 4095 <= ms_recv ms /\ stream_in <= 2 * ms_recv ms /\ (0 < stream_in -> 0 < ms_recv ms).
 Proof. exact no_permanent_stall. Qed.
 Print Assumptions C06_no_permanent_stall.
+
+(* The statements above speak about the order in which the CLIENT processes and writes.  The peer
+   logs the same frames in another interleaving: a frame it sent before it received some client
+   frame stands EARLIER relative to that client frame (`earlier`: repeated exchange of adjacent
+   C f; P g into P g; C f, where g carries a non-negative increment and does not refer to a
+   stream that f opens).  The strict monitor accepts all of those, with the same final books up
+   to the send windows of closed streams. *)
+Theorem C06_wire_order_monitor : forall m0 t t', earlier m0 t t' -> Forall cev_ok t ->
+  forall mf, mon_steps m0 t = Some mf -> exists mf', mon_steps m0 t' = Some mf' /\ meq mf mf'.
+Proof. exact wire_order_accepted. Qed.
+Print Assumptions C06_wire_order_monitor.
+
+Theorem C06_wire_order_admissible : forall prio_len prio_last stream_in conn_flow,
+  cfg_ok prio_len prio_last stream_in conn_flow ->
+  forall evs t', earlier (mon_init stream_in conn_flow) (trace_of prio_len prio_last stream_in conn_flow evs) t' ->
+  accepts (mon_init stream_in conn_flow) t' = true.
+Proof. exact wire_order_admissible. Qed.
+Print Assumptions C06_wire_order_admissible.
+
+(* non-vacuity of `earlier`: the peer's WINDOW_UPDATE was on the wire before the client's first
+   DATA frame arrived, and its SETTINGS frame before the HEADERS frame arrived *)
+Example C06_wire_order_nonvacuous :
+  earlier (mon_init 1000 1000)
+    [C (FHeaders 1 10 true false); P (FSettings [(4, 100)]); C FSettingsAck; C (FData 1 100 false);
+     P (FWindowUpdate 1 50); C (FData 1 50 false)]
+    [P (FSettings [(4, 100)]); C (FHeaders 1 10 true false); C FSettingsAck; P (FWindowUpdate 1 50);
+     C (FData 1 100 false); C (FData 1 50 false)].
+Proof.
+  eapply (earlier_swap _ [C (FHeaders 1 10 true false); P (FSettings [(4, 100)]); C FSettingsAck]
+                       (FData 1 100 false) (FWindowUpdate 1 50) [C (FData 1 50 false)]);
+    [vm_compute; reflexivity|cbn; lia|exact I|].
+  eapply (earlier_swap _ [] (FHeaders 1 10 true false) (FSettings [(4, 100)])
+                       [C FSettingsAck; P (FWindowUpdate 1 50); C (FData 1 100 false); C (FData 1 50 false)]);
+    [vm_compute; reflexivity|exact I|cbn; intros _; lia|].
+  apply earlier_refl.
+Qed.
 
 (* non-vacuity: a legal configuration (priority fields on HEADERS, Firefox-like PRIORITY frames up
    to stream 13, stream window 1000) and an interleaving with a 40000-byte header block, the
